@@ -234,6 +234,90 @@ def descr_tables(rep, mod, u):
            {'code': {str(k): v for k, v in table.items()}}, construct='table')
 
 
+def osd_tables(rep, mod, u):
+    """__providedBy__ descriptor: class access -> the class's own spec;
+    instance -> its __provides__; AttributeError (only) -> implementedBy(cls)."""
+    want = {'class': 'getObjectSpecification(cls)', 'has': 'PROVIDES',
+            'missing': 'implementedBy(cls)', 'error': 'raise ValueError'}
+    f = find_def(mod, 'ObjectSpecificationDescriptor.__get__')
+    table = {}
+    for case in want:
+        prov = Opaque('PROVIDES', label='PROVIDES')
+        attrs = {}
+        if case == 'has':
+            attrs['__provides__'] = prov
+        elif case == 'error':
+            attrs['__provides__'] = Raised('ValueError')
+        inst = None if case == 'class' else Opaque('inst', attrs=attrs, label='inst')
+        cls = Opaque('cls', label='cls')
+
+        def hook(n, env, interp):
+            d = dotted(n.func)
+            if d in ('getObjectSpecification', 'implementedBy') and len(n.args) == 1 \
+                    and isinstance(n.args[0], ast.Name) and n.args[0].id == 'cls':
+                return Opaque(d, label='%s(cls)' % d)
+            raise AnalysisError('call outside model: %s' % norm_src(n))
+        it = Interp(hooks={'call': hook})
+        try:
+            o = outcome(it, f, [Opaque('self', label='self'), inst, cls])
+            table[case] = o[1] if o[0] == 'return' else 'raise ' + o[1]
+        except AnalysisError as e:
+            table[case] = 'UNDECIDED ' + str(e)
+    rep.check('R01.2', 'ObjectSpecificationDescriptor.__get__', table == want,
+              'table %s' % table if table == want else {'code': table, 'spec': want},
+              construct='table', node=f)
+    cf = u.func('OSD_descr_get')
+
+    class M:
+        def __init__(s, case):
+            s.case = case
+            s.err = None
+            s.prov = Sym('PROVIDES')
+            s.inst = None if case == 'class' else Sym('inst')
+            s.cls = Sym('cls')
+
+        def glob(s, n):
+            return Sym(n)
+
+        def field(s, base, name):
+            raise AnalysisError('field %s' % name)
+
+        def setfield(s, *a):
+            raise AnalysisError('store')
+
+        def call(s, name, args, interp, env):
+            if name in ('_get_module', 'Py_TYPE'):
+                return Sym(name)
+            if name == 'getObjectSpecification':
+                return Sym('getObjectSpecification(%s)' % args[1].name)
+            if name == 'implementedBy':
+                return Sym('implementedBy(%s)' % args[1].name)
+            if name == 'PyObject_GetAttr':
+                if args[0] is not s.inst or getattr(args[1], 'name', '') != 'str__provides__':
+                    raise AnalysisError('unexpected probe')
+                if s.case == 'has':
+                    return s.prov
+                s.err = 'AttributeError' if s.case == 'missing' else 'ValueError'
+                return None
+            if name == 'PyErr_ExceptionMatches':
+                return 1 if s.err == getattr(args[0], 'name', '')[6:] else 0
+            if name == 'PyErr_Clear':
+                s.err = None
+                return None
+            raise AnalysisError('call %s outside model' % name)
+    table = {}
+    for case in want:
+        m = M(case)
+        try:
+            v = CInterp(m).run(cf, [Sym('self'), m.inst, m.cls])
+            table[case] = ('raise ' + (m.err or '?')) if v is None else v.name
+        except AnalysisError as e:
+            table[case] = 'UNDECIDED ' + str(e)
+    ccheck(rep, 'R01.2', 'OSD_descr_get', table == want,
+           'table %s' % table if table == want else {'code': table, 'spec': want},
+           construct='table')
+
+
 def shared_no_mutate(rep, mod):
     watched = ('__bases__', 'declared', 'inherit', '_bases')
     n = 0
@@ -479,6 +563,7 @@ def run(rep):
     u = cside.cu(rep)
     r01_1(rep, mod)
     descr_tables(rep, mod, u)
+    osd_tables(rep, mod, u)
     shared_no_mutate(rep, mod)
     class_protocol(rep, mod)
     install(rep, mod)
